@@ -541,4 +541,4 @@ Fixpoint advance_to (fuel : nat) (v : variant) (s : state) (target : time) : sta
   end.
 
 (* what /repo contains now (updated with every repair, see docs/C20.md) *)
-Definition current : variant := pinned.
+Definition current : variant := mkVariant true true true true.
